@@ -53,6 +53,76 @@ def check(run, prog, tier):
     run.rule("C18-H", "exporters and importers of basis- or units-managed classes move the values through the managed "
                       "property, never through its raw storage", minimum=8)
     rule_H(run, prog)
+    run.rule("C18-I", "exported arrays can hold what is put into them (axis next to data), and what a format cannot represent "
+                      "(the rank of one-dimensional data in a Matlab file) is stored with the data and restored", minimum=4)
+    rule_I(run, prog)
+
+
+def rule_I(run, prog):
+    """'Exporting a data array to any supported file format and importing it returns the same values, with or without an
+    accompanying axis.'
+    (i) _data_with_axis builds one array from two sources, the axis and the data.  Every array it allocates and then fills
+    from both has an element type computed from both (numpy.result_type over self.data and the axis, or an equivalent
+    promotion); the type of one source alone truncates or complexifies the other.  The importer takes the axis back as
+    real numbers.
+    (ii) savemat stores one-dimensional arrays as rows and loadmat returns matrices: _saveMatlab stores the number of
+    dimensions next to the data on every path, and _loadMatlab reshapes with it before the data are used."""
+    rid = "C18-I"
+    ds = prog.cls("quantarhei.core.datasaveable.DataSaveable")
+    f = ds.methods["_data_with_axis"]
+    prog.consulted.add(f.relpath)
+    ax = f.node.args.args[1].arg
+    allocs = [n for n in walk_no_nested(f.node) if isinstance(n, ast.Assign) and isinstance(n.value, ast.Call) and call_name(n.value) == "zeros"]
+    if len(allocs) < 2:
+        raise AnalysisError("_data_with_axis: the combined arrays are no longer allocated with zeros")
+    # names bound to a common type
+    common = set()
+    for n in walk_no_nested(f.node):
+        if isinstance(n, ast.Assign) and isinstance(n.value, ast.Call) and call_name(n.value) in ("result_type", "promote_types", "find_common_type"):
+            txt = [norm(a) for a in n.value.args]
+            if any("self.data" in t_ for t_ in txt) and any(t_.startswith(ax + ".") or t_ == ax for t_ in txt):
+                common |= {norm(t_) for t_ in n.targets}
+    for a_ in allocs:
+        dt = [k.value for k in a_.value.keywords if k.arg == "dtype"]
+        ok = False
+        if dt:
+            d = dt[0]
+            ok = norm(d) in common or (isinstance(d, ast.Call) and call_name(d) in ("result_type", "promote_types")
+                                       and any("self.data" in norm(x) for x in d.args) and any(norm(x).startswith(ax) for x in d.args))
+        run.obligation(rid, "DataSaveable._data_with_axis", ok, key="holds-axis-and-data:" + norm(a_)[:40],
+                       message="_data_with_axis allocates the exported array with %s and writes both the axis and the data into it: "
+                               "an axis of real numbers is truncated next to whole-number data and comes back complex next to complex data"
+                               % (norm(dt[0]) if dt else "the default type"), loc=f.loc(a_), sample={"allocation": norm(a_)[:80]})
+    g = ds.methods["_extract_data_with_axis"]
+    for st in [n for n in walk_no_nested(g.node) if isinstance(n, ast.Assign) and norm(n.targets[0]).endswith(".data")
+               and isinstance(n.targets[0], ast.Attribute) and norm(n.targets[0].value) == g.node.args.args[2].arg]:
+        ok = isinstance(st.value, ast.Call) and call_name(st.value) == "real"
+        run.obligation(rid, "DataSaveable._extract_data_with_axis", ok, key="axis-real:" + norm(st)[:40],
+                       message="the importer assigns %s to the axis: stored next to complex data the axis column is complex and the "
+                               "axis handed back is too" % norm(st.value), loc=g.loc(st))
+    sv, ld = ds.methods["_saveMatlab"], ds.methods["_loadMatlab"]
+    saves = [c for c in walk_no_nested(sv.node) if isinstance(c, ast.Call) and call_name(c) == "savemat"]
+    if not saves:
+        raise AnalysisError("_saveMatlab: savemat call not found")
+    for c in saves:
+        d = c.args[1] if len(c.args) > 1 else None
+        keys = {k.value: v for k, v in zip(d.keys, d.values) if isinstance(k, ast.Constant)} if isinstance(d, ast.Dict) else {}
+        ok = "data" in keys and any(norm(v) == norm(keys["data"]) + ".ndim" for k, v in keys.items() if k != "data")
+        run.obligation(rid, "DataSaveable._saveMatlab", ok, key="rank-stored:" + norm(c)[:40],
+                       message="_saveMatlab writes %s without the number of dimensions of the data: a one-dimensional array is stored "
+                               "as a row and cannot be told from a 1 x N matrix when it is loaded" % norm(c)[:60], loc=sv.loc(c))
+    rank_key = None
+    for c in saves:
+        d = c.args[1] if len(c.args) > 1 else None
+        if isinstance(d, ast.Dict):
+            for k, v in zip(d.keys, d.values):
+                if isinstance(k, ast.Constant) and norm(v).endswith(".ndim"):
+                    rank_key = k.value
+    resh = [c for c in walk_no_nested(ld.node) if isinstance(c, ast.Call) and isinstance(c.func, ast.Attribute) and c.func.attr in ("reshape", "ravel", "flatten", "squeeze")]
+    reads_key = rank_key is not None and any(isinstance(x, ast.Constant) and x.value == rank_key for x in ast.walk(ld.node))
+    run.obligation(rid, "DataSaveable._loadMatlab", bool(resh) and reads_key, key="rank-restored",
+                   message="_loadMatlab uses the matrix returned by loadmat as it is: one-dimensional data come back with shape (1, N)",
+                   loc=ld.loc(ld.node))
 
 
 def rule_H(run, prog):
@@ -172,10 +242,14 @@ def rule_A(run, prog):
                         wk = wk and any(k.arg == key for k in c.keywords)
                     else:
                         wk = wk and len(c.args) >= 2 and isinstance(c.args[1], ast.Dict) and \
-                            [const_value(k) for k in c.args[1].keys] == [key]
-                rk = any(isinstance(n, ast.Subscript) and isinstance(n.value, ast.Call)
-                         and prog.external_name(rs, n.value.func) == rapi and norm(n.slice) == repr(key)
-                         for n in walk_no_nested(rs.node))
+                            key in [const_value(k) for k in c.args[1].keys]
+                # the reader selects the key from the loaded file: directly on the call, or on the name bound to it
+                loaded = {t_.id for n in walk_no_nested(rs.node) if isinstance(n, ast.Assign) and isinstance(n.value, ast.Call)
+                          and prog.external_name(rs, n.value.func) == rapi for t_ in n.targets if isinstance(t_, ast.Name)}
+                rk = any(isinstance(n, ast.Subscript) and norm(n.slice) == repr(key) and (
+                    (isinstance(n.value, ast.Call) and prog.external_name(rs, n.value.func) == rapi)
+                    or (isinstance(n.value, ast.Name) and n.value.id in loaded))
+                    for n in walk_no_nested(rs.node))
                 run.obligation(rid, "%s.%s" % (cname, t2[e]), wk and rk, key="key:" + e,
                                message="array must be stored and selected under the same key %r" % key, loc=rs.loc(),
                                sample={"extension": e, "key": key})
@@ -233,7 +307,8 @@ def rule_A(run, prog):
                        sample={"allocation": norm(a_)[:80]})
     x = cls.methods["_extract_data_with_axis"]
     st = [norm(s) for s in ast.walk(x.node) if isinstance(s, ast.stmt)]
-    ok = st.count("axis.data = data[:, 0]") == 2 and "return data[:, 1]" in st and "return data[:, 1:]" in st
+    ok = (st.count("axis.data = data[:, 0]") + st.count("axis.data = numpy.real(data[:, 0])")) == 2 \
+        and "return data[:, 1]" in st and "return data[:, 1:]" in st
     run.obligation(rid, "DataSaveable._extract_data_with_axis", ok, key="unpack",
                    message="extraction must read the axis from column 0 and the data from the remaining columns",
                    loc=x.loc())
